@@ -20,7 +20,7 @@ func VerifC07EndBlocker() {
 	rt.Assume(rt.And(window >= 1, window < 1<<40))
 	e.setParams(verifParamSets[0], window)
 
-	nOracles := rt.Bound("oracles", 2, 3)
+	nOracles := rt.Bound("oracles", 2, 2)
 	oracles := e.verifSymOracles(nOracles)
 	e.k.SetLastTotalPower(e.ctx)
 
